@@ -266,6 +266,11 @@ def evaluate(ctx, cases, deep_every=4):
         if a["keys"] != [c.get("name", "flux") + c["suffix"]]:
             diffs.append(f"helper defined keys {a['keys']}")
         for x, m, l64 in zip(c["xs"], ms, a["logp"]):
+            if (c["kind"] == "trunc" and c["low"] is not None and c["high"] is not None and (c["low"] - c["loc"]) / c["scale"] > 7.0
+                    and m["inside"] and not np.isfinite(l64)):
+                # two-sided window more than 7 σ above loc: the pinned numpyro's normaliser cancels in float64 as well (the float32
+                # case is the known finding); the 64-bit pass cannot pin the formula there, the float32 oracle judges these points
+                continue
             if c.get("far_tail") and m["inside"]:
                 # the model's Float evaluation forms 1 − Φ(z) and loses the upper tail beyond ~8 σ (a limit of the executable
                 # instance, not of the theorems, which are over ℝ): these points are judged by the scipy oracle below only
